@@ -393,7 +393,23 @@ def run_impl(case):
     return {"obs": _run_obs, "param": _run_param, "multi": _run_multi}[case["kind"]](case)
 
 
+def _batch_ranks_ok(bt):
+    return _rank_ok(bt["pin"], 2) and _rank_ok(bt["val"], 2) and all(_rank_ok(v, 2) for _, v in bt["eq"])
+
+
+def _well_ranked(case, obs):
+    """every returned array has the documented rank (a batch of another rank cannot even be sent to the model)"""
+    if case["kind"] == "obs":
+        return all(_batch_ranks_ok(s) for s in obs["steps"])
+    if case["kind"] == "param":
+        return (obs["stores"] is None or all(_rank_ok(v, 2) for _, v in obs["stores"])) and \
+            all(_rank_ok(e["batch"], 2) for s in obs["steps"] for e in s)
+    return all(e["batch"] is None or _batch_ranks_ok(e["batch"]) for s in obs["steps"] for e in s)
+
+
 def lean_request(case, obs):
+    if not _well_ranked(case, obs):
+        return None
     if case["kind"] == "obs":
         t = obs["tables"]
         return {"op": "c15_obs", "b": case["b"], "pin": t["pin"], "val": t["val"], "eq": t["eq"], "steps": obs["steps"]}
@@ -413,6 +429,13 @@ def lean_request(case, obs):
             "steps": obs["steps"]}
 
 
+def _rank_ok(x, d):
+    """x is a nested list of exactly d levels (what the model driver's parser expects)"""
+    if d == 0:
+        return not isinstance(x, list)
+    return isinstance(x, list) and all(_rank_ok(y, d - 1) for y in x)
+
+
 def _ulp(m):
     if m == 0:
         return Fraction(0)
@@ -428,6 +451,8 @@ def _flat(a):
 
 
 def judge(case, obs, a):
+    if a is None:
+        return {"status": "violation", "clause": "batch-array-rank-is-not-2-(rows-x-columns)"}
     if a["error"] == "sampler_contract":
         if not a["holds"]:
             return {"status": "violation", "clause": a["clause"]}
